@@ -342,6 +342,10 @@ func (l *queryLog) readNextEntry(
 	e = &logEntry{}
 	l.decodeLogEntry(ctx, e, line)
 
+	// Set the timestamp before the entry can be dropped, since it's used as
+	// the continuation cursor of the search.
+	ts = e.Time.UnixNano()
+
 	if l.isIgnored(e.QHost) {
 		return nil, ts, nil
 	}
